@@ -372,13 +372,25 @@ theorem inv_clear {c : BC} (hc : Inv c) : Inv c.clear := by
 
 /-! ### selection rule of `get_random` -/
 
-theorem pickLoop_ge (ks : List (Nat × Rat)) (p : Rat) (i : Nat) : i ≤ pickLoop ks p i := by
+/-- the plain "subtract until `p ≤ 0`" loop; `pickLoop` coincides with it for positive draws -/
+def pickLoop0 : List (Nat × Rat) → Rat → Nat → Nat
+  | [], _, i => i
+  | kw :: t, p, i => if p - kw.2 ≤ 0 then i else pickLoop0 t (p - kw.2) (i + 1)
+
+theorem pickLoop_eq_pickLoop0 (ks : List (Nat × Rat)) (h : ∀ kw ∈ ks, 0 ≤ kw.2) (p : Rat) (hp : 0 < p) (i : Nat) :
+    pickLoop ks p i = pickLoop0 ks p i := by
   induction ks generalizing p i with
-  | nil => simp [pickLoop]
+  | nil => rfl
   | cons a t ih =>
-    unfold pickLoop; split
-    · exact Nat.le_refl _
-    · exact Nat.le_trans (Nat.le_succ i) (ih _ _)
+    have ha : 0 ≤ a.2 := h a (by simp)
+    have ht : ∀ kw ∈ t, 0 ≤ kw.2 := fun kw hk => h kw (by simp [hk])
+    unfold pickLoop pickLoop0
+    by_cases h1 : p - a.2 ≤ 0
+    · have : 0 < a.2 := by linarith
+      simp [h1, this]
+    · have : ¬ (p - a.2 ≤ 0 ∧ 0 < a.2) := fun hh => h1 hh.1
+      simp only [this, h1, if_false]
+      exact ih ht _ (by linarith) _
 
 theorem pickLoop_shift (ks : List (Nat × Rat)) (p : Rat) (i : Nat) :
     pickLoop ks p i = i + pickLoop ks p 0 := by
@@ -389,14 +401,39 @@ theorem pickLoop_shift (ks : List (Nat × Rat)) (p : Rat) (i : Nat) :
     · simp
     · rw [ih _ (i + 1), ih _ (0 + 1)]; omega
 
-/-- characterisation of the selected index: all earlier partial sums are `< p`, and the partial
-sum including the selected key is `≥ p` -/
-theorem pickLoop_spec (ks : List (Nat × Rat)) (p : Rat) (j : Nat) (hj : j < ks.length) :
-    pickLoop ks p 0 = j ↔ (∀ i, i < j → sumW (ks.take (i + 1)) < p) ∧ p ≤ sumW (ks.take (j + 1)) := by
+theorem pickLoop0_shift (ks : List (Nat × Rat)) (p : Rat) (i : Nat) :
+    pickLoop0 ks p i = i + pickLoop0 ks p 0 := by
+  induction ks generalizing p i with
+  | nil => simp [pickLoop0]
+  | cons a t ih =>
+    unfold pickLoop0; split
+    · simp
+    · rw [ih _ (i + 1), ih _ (0 + 1)]; omega
+
+/-- whatever is selected has positive weight (immediate from the loop condition) -/
+theorem pickLoop_pos (ks : List (Nat × Rat)) (p : Rat) (j : Nat) (hj : j < ks.length)
+    (h : pickLoop ks p 0 = j) : 0 < (ks[j]).2 := by
   induction ks generalizing p j with
   | nil => simp at hj
   | cons a t ih =>
-    unfold pickLoop
+    unfold pickLoop at h
+    split at h
+    · rename_i hc; subst h; simpa using hc.2
+    · rw [pickLoop_shift] at h
+      cases j with
+      | zero => omega
+      | succ n =>
+        have := ih (p - a.2) n (by simpa using hj) (by omega)
+        simpa using this
+
+/-- characterisation of the plain loop: all earlier partial sums are `< p`, and the partial
+sum including the selected key is `≥ p` -/
+theorem pickLoop0_spec (ks : List (Nat × Rat)) (p : Rat) (j : Nat) (hj : j < ks.length) :
+    pickLoop0 ks p 0 = j ↔ (∀ i, i < j → sumW (ks.take (i + 1)) < p) ∧ p ≤ sumW (ks.take (j + 1)) := by
+  induction ks generalizing p j with
+  | nil => simp at hj
+  | cons a t ih =>
+    unfold pickLoop0
     split
     · rename_i hle
       constructor
@@ -411,7 +448,7 @@ theorem pickLoop_spec (ks : List (Nat × Rat)) (p : Rat) (j : Nat) (hj : j < ks.
           simp [sumW] at this
           linarith
     · rename_i hgt
-      rw [pickLoop_shift]
+      rw [pickLoop0_shift]
       cases j with
       | zero =>
         constructor
@@ -424,7 +461,7 @@ theorem pickLoop_spec (ks : List (Nat × Rat)) (p : Rat) (j : Nat) (hj : j < ks.
         have := ih (p - a.2) n hn
         constructor
         · intro h
-          have h' : pickLoop t (p - a.2) 0 = n := by omega
+          have h' : pickLoop0 t (p - a.2) 0 = n := by omega
           obtain ⟨h1, h2⟩ := this.1 h'
           refine ⟨?_, ?_⟩
           · intro i hi
@@ -437,7 +474,7 @@ theorem pickLoop_spec (ks : List (Nat × Rat)) (p : Rat) (j : Nat) (hj : j < ks.
           · simp only [sumW, List.take_succ_cons, List.map_cons, List.sum_cons] at h2 ⊢
             linarith
         · intro ⟨h1, h2⟩
-          have : pickLoop t (p - a.2) 0 = n := by
+          have : pickLoop0 t (p - a.2) 0 = n := by
             apply this.2
             refine ⟨?_, ?_⟩
             · intro i hi
@@ -446,6 +483,62 @@ theorem pickLoop_spec (ks : List (Nat × Rat)) (p : Rat) (j : Nat) (hj : j < ks.
               linarith
             · simp only [sumW, List.take_succ_cons, List.map_cons, List.sum_cons] at h2 ⊢
               linarith
+          omega
+
+/-- for positive draws and non-negative weights the code's loop has the same characterisation -/
+theorem pickLoop_spec (ks : List (Nat × Rat)) (hnn : ∀ kw ∈ ks, 0 ≤ kw.2) (p : Rat) (hp : 0 < p)
+    (j : Nat) (hj : j < ks.length) :
+    pickLoop ks p 0 = j ↔ (∀ i, i < j → sumW (ks.take (i + 1)) < p) ∧ p ≤ sumW (ks.take (j + 1)) := by
+  rw [pickLoop_eq_pickLoop0 ks hnn p hp]; exact pickLoop0_spec ks p j hj
+
+/-- a draw `≤ 0` selects the first key of positive weight -/
+theorem pickLoop_nonpos (ks : List (Nat × Rat)) (hnn : ∀ kw ∈ ks, 0 ≤ kw.2) (p : Rat) (hp : p ≤ 0)
+    (j : Nat) (hj : j < ks.length) :
+    pickLoop ks p 0 = j ↔ (∀ i (hi : i < j), (ks[i]'(by omega)).2 = 0) ∧ 0 < (ks[j]).2 := by
+  induction ks generalizing p j with
+  | nil => simp at hj
+  | cons a t ih =>
+    have ha : 0 ≤ a.2 := hnn a (by simp)
+    have ht : ∀ kw ∈ t, 0 ≤ kw.2 := fun kw hk => hnn kw (by simp [hk])
+    unfold pickLoop
+    by_cases h0 : 0 < a.2
+    · have : p - a.2 ≤ 0 ∧ 0 < a.2 := ⟨by linarith, h0⟩
+      simp only [this, and_self, if_true]
+      constructor
+      · intro h; subst h; exact ⟨fun i hi => absurd hi (Nat.not_lt_zero _), by simpa using h0⟩
+      · intro ⟨h1, _⟩
+        cases j with
+        | zero => rfl
+        | succ n =>
+          have := h1 0 (Nat.succ_pos _)
+          simp at this; linarith
+    · have ha0 : a.2 = 0 := by linarith
+      have : ¬ (p - a.2 ≤ 0 ∧ 0 < a.2) := fun hh => h0 hh.2
+      simp only [this, if_false]
+      rw [pickLoop_shift]
+      cases j with
+      | zero =>
+        constructor
+        · intro h; omega
+        · intro ⟨_, h2⟩; simp at h2; exact absurd h2 h0
+      | succ n =>
+        have hn : n < t.length := by simpa using hj
+        have := ih ht (p - a.2) (by linarith) n hn
+        constructor
+        · intro h
+          have h' : pickLoop t (p - a.2) 0 = n := by omega
+          obtain ⟨h1, h2⟩ := this.1 h'
+          refine ⟨?_, by simpa using h2⟩
+          intro i hi
+          cases i with
+          | zero => simpa using ha0
+          | succ m => simpa using h1 m (by omega)
+        · intro ⟨h1, h2⟩
+          have : pickLoop t (p - a.2) 0 = n := by
+            apply this.2
+            refine ⟨?_, by simpa using h2⟩
+            intro i hi
+            simpa using h1 (i + 1) (by omega)
           omega
 
 theorem sumW_take_mono {ks : List (Nat × Rat)} (h : ∀ kw ∈ ks, 0 ≤ kw.2) {a b : Nat} (hab : a ≤ b) :
